@@ -21,6 +21,6 @@ def run(ctx):
                   ("neg_snap_skip_ignored_dir", "Inv_C23"), ("neg_snap_tracked_nonfile", "Inv_C23"),
                   ("finding_stale_state", "Inv_C23"),
                   ("finding_dir_conflict", "Inv_C23"), ("finding_tracked_dir", "Inv_C23"),
-                  ("finding_stale_ignored", "Inv_C23"), ("finding_notdir", "Inv_C23")],
+                  ("finding_stale_ignored", "Inv_C23"), ("finding_notdir", "Inv_C23"), ("finding_through_symlink", "Inv_C23")],
         gen_cfgs=[("gen_c23", ctx.q(250, 600)), ("gen_c23_ignored", ctx.q(120, 300))],
         n_random=ctx.q(300, 1500), focus="snapshot")
